@@ -60,6 +60,12 @@ GroupSet(s) ==
           conds : {<<Entry(0, <<c>>)>> : c \in AllOpConds}
                   \cup {<<Entry(0, <<c, d>>)>> : c \in AllOpConds, d \in [arg : {1}, op : {"Equal"}, val : {1}]},
           act : {"errno", "trap"}]
+    [] s = "pairs" ->      \* C03: AND of two conditions on the SAME argument, every pair of operations and operands
+         [names : {<<>>},
+          conds : {<<Entry(0, <<c, d>>)>> : c \in [arg : {0}, op : OpSet, val : {1, 2}], d \in [arg : {0}, op : OpSet, val : {1, 2, 3}]}
+                  \cup {<<Entry(0, <<c, e, d>>)>> : c \in [arg : {0}, op : {"BitsSet", "BitsNotSet", "Equal"}, val : {1}], e \in [arg : {1}, op : {"Equal"}, val : {1}],
+                                                      d \in [arg : {0}, op : {"BitsSet", "BitsNotSet", "NotEqual"}, val : {2}]},
+          act : {"errno"}]
     [] s = "single" ->     \* C02: one condition, every operation, operand and position
          [names : {<<>>},
           conds : {<<Entry(0, <<c>>)>> : c \in [arg : {0, 5}, op : OpSet, val : Vals]},
@@ -246,7 +252,7 @@ EventSeq(s) ==
          SetToSeq({Ev(ar, nr, NoArgs) : ar \in {"own", "other"}, nr \in 0..NrMax})
     [] s \in {"groups2", "chain"} ->
          SetToSeq({Ev(ar, nr, NoArgs) : ar \in {"own", "other"}, nr \in 0..NrMax})
-    [] s \in {"rich", "merge", "many", "manywide", "allops", "defects", "defects2", "deep"} ->
+    [] s \in {"rich", "merge", "many", "manywide", "allops", "defects", "defects2", "deep", "pairs"} ->
          SetToSeq({Ev(ar, nr, a) : ar \in {"own", "other"},
                                    nr \in Sys \cup {NSys, X32Bit, X32Bit + 1}, a \in Args2})
     [] s \in {"long1", "long2", "longconds", "klong"} -> LongEvents(s)
